@@ -143,6 +143,61 @@ func init() {
 		if !found {
 			broken("C09: runIPServer: receive buffer size not found")
 		}
+		// the receive loop restores buf and oob to full capacity as its first two statements
+		// (every rejection path leaves the body with `continue`, so a restore anywhere else is
+		// skipped after a rejected datagram)
+		restores := false
+		ast.Inspect(fd.Body, func(n ast.Node) bool {
+			fs, ok := n.(*ast.ForStmt)
+			if !ok || restores {
+				return true
+			}
+			if fs.Init != nil || fs.Cond != nil || fs.Post != nil || len(fs.Body.List) < 3 {
+				return true
+			}
+			isRestore := func(st ast.Stmt, name string) bool {
+				as, ok := st.(*ast.AssignStmt)
+				if !ok || as.Tok != token.ASSIGN || len(as.Lhs) != 1 || len(as.Rhs) != 1 {
+					return false
+				}
+				l, ok := as.Lhs[0].(*ast.Ident)
+				if !ok || l.Name != name {
+					return false
+				}
+				sl, ok := as.Rhs[0].(*ast.SliceExpr)
+				if !ok || sl.Low != nil || sl.Max != nil {
+					return false
+				}
+				x, ok := sl.X.(*ast.Ident)
+				if !ok || x.Name != name {
+					return false
+				}
+				call, ok := sl.High.(*ast.CallExpr)
+				if !ok || len(call.Args) != 1 {
+					return false
+				}
+				f, ok := call.Fun.(*ast.Ident)
+				a, ok2 := call.Args[0].(*ast.Ident)
+				return ok && ok2 && f.Name == "cap" && a.Name == name
+			}
+			if isRestore(fs.Body.List[0], "buf") && isRestore(fs.Body.List[1], "oob") {
+				// and the third statement is the read
+				if as, ok := fs.Body.List[2].(*ast.AssignStmt); ok && len(as.Rhs) == 1 {
+					if call, ok := as.Rhs[0].(*ast.CallExpr); ok {
+						if sel, ok := call.Fun.(*ast.SelectorExpr); ok && sel.Sel.Name == "ReadMsgUDPAddrPort" {
+							restores = true
+						}
+					}
+				}
+			}
+			return true
+		})
+		if restores {
+			out = append(out, "def ipServerRestoresBufAtLoopTop : Bool := true")
+		} else {
+			out = append(out, "def ipServerRestoresBufAtLoopTop : Bool := false")
+			broken("C09: runIPServer: the receive loop no longer restores buf/oob to full capacity as its first statements (a rejected datagram would leave the buffer shrunk)")
+		}
 		return out
 	})
 }
